@@ -15,11 +15,19 @@
    shared frame is clobbered by an arbitrary function).  Quantified: every
    registry, heap, obligatory-directive list, message bundle, execution-count
    and clobber function, every history of requests (any templates, data, ij,
-   fuel, writer faults).  User functions are outside the model ([Crash]).
+   fuel, writer faults).  The user-extensible registries: the second half of
+   the file states the same theorems for the walker of Model/InterpExt.v, in
+   which soyhtml.Funcs and soyhtml.PrintDirectives hold, besides the library's
+   entries, ARBITRARY installed functions and directives (a Section variable:
+   any Gallina function of the argument values -- the contract "returns a
+   value, may read its arguments").  The message bundle is read-only to a
+   render: read off the events extracted from exec.go ([bundle_read_only]).
    JavaScript generation is not modelled: its purity rests on the harness's
    digests alone. *)
 From Soy Require Import Model.Bytes Model.Num Model.Values Model.Outcome Model.Ast
-  Model.Interp Model.History Spec.Purity Proofs.InterpLogic Proofs.PurityProofs.
+  Model.Interp Model.InterpExt Model.History Spec.Purity Proofs.InterpLogic Proofs.PurityProofs
+  Proofs.InterpExtProofs Proofs.WalkTie.
+From Soy Require Import Generated.Tables.
 Open Scope N_scope.
 
 (* every [set] of a render -- succeeding or failing, whatever the writer does -- lands on a frame
@@ -98,3 +106,65 @@ Example ex_failing_history :
       (fst (run_history (wit_world Repaired) wit_shared [ex_dead; ex_missing; wit_rq])) =
   [(false, []); (false, []); (true, b "a+b")].
 Proof. vm_compute. reflexivity. Qed.
+
+(* ================================================================== *)
+(* every configuration of the user-extensible registries              *)
+(* ================================================================== *)
+
+Section Installed.
+(* what a program installed in soyhtml.Funcs and soyhtml.PrintDirectives: for each name the valid argument
+   counts and Apply as an arbitrary function of the argument values (contract: it returns a value or panics; it may
+   read its arguments; it writes to nothing a render can reach) *)
+Variable ux : user_ext.
+
+Theorem no_shared_writes_installed :
+  forall cf fuel name id data cl bl fid,
+    rr_shared_writes (render_x cf ux fuel name id data cl bl fid) = [].
+Proof. intros. apply render_x_no_shared_writes. Qed.
+
+Theorem walker_no_shared_writes_installed :
+  forall cf fuel n st r st',
+    shared_writes st = [] /\ top_fresh (ctx st) ->
+    walk_x cf ux fuel n st = (r, st') -> shared_writes st' = [].
+Proof. intros cf fuel n st r st'. apply walk_x_no_shared_writes. Qed.
+
+Theorem exec_preserves_shared_installed :
+  forall wd, w_variant wd = Repaired -> forall sh rq, snd (step_x ux wd sh rq) = sh.
+Proof. intros wd Hv sh rq. apply shared_preserved_x. exact Hv. Qed.
+
+Theorem history_independent_installed :
+  forall wd, w_variant wd = Repaired ->
+  forall sh h rq d, last (fst (run_history_x ux wd sh (h ++ [rq]))) d = render_in_x ux wd sh rq.
+Proof. intros wd Hv sh h rq d. rewrite (history_independent_x_l ux wd sh h rq Hv). apply last_last. Qed.
+
+Theorem history_pointwise_independent_installed :
+  forall wd sh h, w_variant wd = Repaired -> fst (run_history_x ux wd sh h) = map (render_in_x ux wd sh) h.
+Proof. intros wd sh h Hv. apply history_pointwise_x. exact Hv. Qed.
+End Installed.
+Print Assumptions no_shared_writes_installed.
+Print Assumptions exec_preserves_shared_installed.
+Print Assumptions history_independent_installed.
+Print Assumptions history_pointwise_independent_installed.
+
+(* with nothing installed and no message bundle the extended walker is the walker of the theorems above: on every
+   node, fuel and state *)
+Theorem nothing_installed_is_the_walker :
+  forall cf, c_msgs cf = None -> forall fuel n st, walk_x cf no_ext fuel n st = walk cf fuel n st.
+Proof. exact walk_x_no_ext. Qed.
+Print Assumptions nothing_installed_is_the_walker.
+
+(* the message bundle a render is given (s.msgs, an interface value of the caller) and the message it returns are
+   read-only to the walker: of everything exec.go's walker does -- every call that is not a pure builtin, every
+   assignment whose target is not a local variable, extracted from the source on every run -- the only uses of the
+   bundle are the getters Message and PluralCase, and the only stores go to the fields of the walker's own state and
+   to the argument / item slices it has just allocated *)
+Theorem bundle_read_only :
+  among bundle_getters (filter is_bundle_call (flat_map evs_calls all_events)) = true /\
+  among store_targets (flat_map evs_assigns all_events) = true.
+Proof. split; [exact walker_bundle_calls | exact walker_store_targets]. Qed.
+
+(* non-vacuity: an installed function twice($x) under an installed obligatory directive |bang, rendered twice *)
+Example ex_installed_history :
+  map (fun r => (is_ok (rr_outcome r), concat_b (rr_writes r))) (fst (run_history_x ux_wit ux_world ux_shared [wit_rq; wit_rq]))
+  = [(true, b "a&lt;a&lt;!"); (true, b "a&lt;a&lt;!")].
+Proof. exact ux_witness. Qed.
